@@ -6,7 +6,7 @@ self-test can swap one module for an edited copy without touching the disk.
 from __future__ import annotations
 import ast, os, copy
 from .report import REPO, AnalysisError
-from .canon import canonicalise, accumulate_to_comprehension
+from .canon import canonicalise_program, accumulate_to_comprehension
 
 PKG = "inference"
 
@@ -323,9 +323,12 @@ class Program:
         self.trees = trees            # relpath -> ast.Module
         self.modules = {}             # dotted name -> ModuleInfo
         self.by_rel = {}
-        for rel, tree in trees.items():
+        known_by_rel = {}
+        for rel in trees:
             known = (_reference_locals().get(rel) or {}).get("__all__")
-            canonicalise(tree, set(known) if known is not None else None)
+            known_by_rel[rel] = set(known) if known is not None else None
+        canonicalise_program(trees, known_by_rel)
+        for rel, tree in trees.items():
             inline_new_temps(tree, rel)
             if accumulate_to_comprehension(tree):
                 inline_new_temps(tree, rel)       # a list that is now bound once may be a single-use temporary
@@ -340,6 +343,28 @@ class Program:
         for mi in self.modules.values():
             for ci in mi.classes.values():
                 self.classes.setdefault(ci.name, ci)   # class names are unique in this repo
+        # functions that still carry residue of the normalisation: locals of an inlined helper that could not be folded
+        # back, or a call to a function the reference does not know and that could not be inlined.  A failing obligation
+        # located in such a function is reported as "verdict withheld" (exit 2), not as a violation (see sa/report.py).
+        self.residue = {}
+        for rel, mi in self.by_rel.items():
+            known = known_by_rel.get(rel)
+            unknown = set()
+            if known is not None:
+                unknown = {qn.split(".")[-1] for qn, _ in iter_functions(mi.tree) if qn not in known}
+            for qn, fn in iter_functions(mi.tree):
+                why = None
+                if any(isinstance(n, ast.Name) and "__h" in n.id for n in ast.walk(fn)):
+                    why = "locals of an inlined helper remain"
+                else:
+                    for n in ast.walk(fn):
+                        if isinstance(n, ast.Call):
+                            nm = n.func.attr if isinstance(n.func, ast.Attribute) else n.func.id if isinstance(n.func, ast.Name) else None
+                            if nm in unknown and nm != fn.name:
+                                why = f"calls `{nm}`, a function the reference snapshot does not know and that could not be inlined"
+                                break
+                if why:
+                    self.residue[f"{mi.name}.{qn}"] = why
 
     # ---------------------------------------------------------------- loading
     @classmethod
